@@ -10,6 +10,9 @@ Record writer := mkWriter {
   w_tr : N;                 (* the Transport the writer is bound to *)
   w_size : Z                (* -1 = unwritten *)
 }.
+(* responseWriter.Written is `w.size != -1`: the translated method (Gen.C10.go_responseWriter_Written)
+   is proved equal to this reading in Proofs_Edns.gen_responseWriter_Written *)
+Definition writer_unwritten_size : Z := -1.
 Definition w_written (w : writer) : bool := negb (w_size w =? writer_unwritten_size)%Z.
 Inductive wop :=
 | WReset (t : N)            (* Chain.Reset / ResetWire -> rebindWriter -> responseWriter.Reset(t) *)
@@ -26,6 +29,16 @@ Fixpoint w_run (w : writer) (l : list wop) : writer * list (option (N * list byt
   | o :: r => let '(w1, e) := w_step w o in
               let '(w2, es) := w_run w1 r in (w2, e :: es)
   end.
+
+(* every field the base writer keeps between requests (middleware.responseWriter: msg wire size
+   rcode proto remoteip internal directPack, + the embedded Transport), as Reset leaves them for a
+   transport described by (id, stream?, client address): NOTHING of the previous request enters *)
+Record wfull := mkWfull {
+  wf_tr : N; wf_hasmsg : bool; wf_haswire : bool; wf_size : Z; wf_rcode : Z; wf_tcp : bool; wf_ip : N;
+  wf_internal : bool; wf_direct : bool
+}.
+Definition wf_reset (w : wfull) (t : N) (tcp : bool) (ip : N) : wfull :=
+  mkWfull t false false writer_reset_size 0 tcp ip false false.
 
 (* ------------------------------------------------------------------ shared lookup *)
 Record msg := mkMsg { m_id : N; m_body : list byte }.
